@@ -139,6 +139,37 @@ def _discarded_body_still_checked(kind_i, b1, mode, pos, framing):
     return ref[0] == 'ok'                             # accepted without complaint only if the damaged stream is in fact still valid
 
 
+def _after_first_member(b1, b2, c1, c2, tail_kind):
+    """Bytes after the first gzip member (a second member, padding, junk): whatever the decoder makes of them, it makes the same of
+    them for every split."""
+    from wpull.errors import ProtocolError
+    first = zmodel.encode('gzip', [b1], False)
+    if tail_kind == 0:
+        tail = zmodel.encode('gzip', [b2], False)
+    elif tail_kind == 1:
+        tail = b'\x00\x00\x00'
+    elif tail_kind == 2:
+        tail = b'junk'
+    else:
+        tail = b'\x1f'
+    data = first + tail
+    c1 = pick(list(range(41)), c1)
+    c2 = pick([0, 1, 2, 3], c2)
+
+    def attempt(pieces):
+        try:
+            return ('ok', _run(_decoder('gzip', False), pieces))
+        except ProtocolError:
+            return ('error', None)
+    try:
+        one = attempt([data])
+        got = attempt(_pieces(data, c1, c2, 0))
+    except zmodel.OutOfModel:
+        return True
+    hit('same')
+    return one == got
+
+
 def _coded_overrun(kind_i, payload, cuts, overrun):
     """A coded, length-delimited body followed by surplus bytes, through Stream.read_body (harness shared with C08)."""
     from harness import c08
@@ -307,6 +338,13 @@ HARNESSES = [
       funcs=['wpull/protocol/http/stream.py:Stream.read_body', 'wpull/protocol/http/stream.py:Stream._flush_decompressor'],
       doc='read_body(file=None): a coded body truncated at, or damaged at, every position is still reported as a protocol error (unless '
           'an independent one-shot reference accepts the damaged stream)'),
+    H('after_first_member', '_after_first_member', 'b1: bytes, b2: bytes, c1: int, c2: int, tail_kind: int',
+      pre=['len(b1) <= 1 and len(b2) <= 1 and 0 <= c1 <= 40 and 0 <= c2 <= 3 and 0 <= tail_kind <= 3'],
+      parts=[{'tag': 't%d' % t, 'fix': {'tail_kind': str(t), 'b2': "b'B'", 'b1': "b'A'"}} for t in range(4)],
+      timeout={'quick': 250, 'thorough': 900}, samples=[(b'a', b'b', 21, 0, 0), (b'a', b'', 3, 1, 2)], need=['same'],
+      funcs=['wpull/decompression.py:SimpleGzipDecompressor.decompress', 'wpull/decompression.py:GzipDecompressor.decompress'],
+      doc='a gzip body (concrete one-byte payloads; the cut positions are the symbolic part) followed by a second member / padding / junk, cut at every position (also exactly at the member boundary): the '
+          'split result - output or protocol error - equals the one-shot result'),
     H('coded_overrun', '_coded_overrun', 'kind_i: int, payload: bytes, cuts: List[int], overrun: int',
       pre={'quick': ['0 <= kind_i <= 2 and len(payload) <= 1 and len(cuts) <= 1 and 1 <= overrun <= 2'],
            'thorough': ['0 <= kind_i <= 2 and len(payload) <= 3 and len(cuts) <= 3 and 1 <= overrun <= 2']},
